@@ -1,0 +1,237 @@
+//! Verification hook (cargo feature `verif`): plain-text dump of the grammar
+//! and of the LR table, including the private item/lookahead data. Read only;
+//! nothing here is used by the compiler itself.
+use std::fmt::Write;
+use std::panic::{catch_unwind, AssertUnwindSafe};
+
+use rustemo::Parser;
+
+use super::{Action, LRTable};
+use crate::{
+    grammar::{builder::GrammarBuilder, Associativity, Grammar},
+    index::TermIndex,
+    lang::{rustemo::RustemoParser, rustemo_actions::Recognizer},
+    settings::Settings,
+};
+
+fn hex(s: &str) -> String {
+    if s.is_empty() {
+        return "-".to_string();
+    }
+    s.bytes().map(|b| format!("{b:02x}")).collect()
+}
+
+fn assoc(a: &Associativity) -> &'static str {
+    match a {
+        Associativity::None => "N",
+        Associativity::Left => "L",
+        Associativity::Right => "R",
+    }
+}
+
+fn panic_message(e: Box<dyn std::any::Any + Send>) -> String {
+    if let Some(s) = e.downcast_ref::<&str>() {
+        s.to_string()
+    } else if let Some(s) = e.downcast_ref::<String>() {
+        s.clone()
+    } else {
+        "?".to_string()
+    }
+}
+
+/// Dump of the grammar part.
+pub fn dump_grammar(g: &Grammar, out: &mut String) {
+    writeln!(out, "NTERM {}", g.terminals.len()).unwrap();
+    for t in &g.terminals {
+        let (kind, rec) = match &t.recognizer {
+            Some(Recognizer::StrConst(s)) => ("S", hex(s.as_ref())),
+            Some(Recognizer::RegexTerm(r)) => ("R", hex(r.as_ref())),
+            None => ("-", "-".to_string()),
+        };
+        writeln!(
+            out,
+            "TERM {} {} {} {} {} {} {} {}",
+            t.idx.0,
+            t.name,
+            t.prio,
+            assoc(&t.assoc),
+            kind,
+            rec,
+            t.has_content as u8,
+            t.reachable.get() as u8
+        )
+        .unwrap();
+    }
+    writeln!(out, "NNONTERM {}", g.nonterminals.len()).unwrap();
+    for n in &g.nonterminals {
+        write!(out, "NONTERM {} {} {}", n.idx.0, n.name, n.reachable.get() as u8).unwrap();
+        for p in &n.productions {
+            write!(out, " {}", p.0).unwrap();
+        }
+        writeln!(out).unwrap();
+    }
+    writeln!(out, "NPROD {}", g.productions.len()).unwrap();
+    for p in &g.productions {
+        write!(
+            out,
+            "PROD {} {} {} {} {} {} {} {} {}",
+            p.idx.0,
+            g.nonterm_to_symbol_index(p.nonterminal).0,
+            p.ntidx,
+            p.prio,
+            assoc(&p.assoc),
+            p.nops as u8,
+            p.nopse as u8,
+            p.kind.as_deref().unwrap_or("-"),
+            p.rhs.len()
+        )
+        .unwrap();
+        for s in p.rhs_symbols() {
+            write!(out, " {}", s.0).unwrap();
+        }
+        writeln!(out).unwrap();
+        write!(out, "PRODASSIGN {}", p.idx.0).unwrap();
+        for a in &p.rhs {
+            write!(
+                out,
+                " {}:{}",
+                a.name.as_ref().map(|n| n.as_ref().to_string()).unwrap_or("-".into()),
+                a.is_bool as u8
+            )
+            .unwrap();
+        }
+        writeln!(out).unwrap();
+        write!(out, "PRODMETA {}", p.idx.0).unwrap();
+        for (k, v) in &p.meta {
+            write!(out, " {}={}", k, hex(&format!("{v:?}"))).unwrap();
+        }
+        writeln!(out).unwrap();
+    }
+    writeln!(
+        out,
+        "SPECIAL {} {} {} {} {}",
+        g.empty_index.0,
+        g.stop_index.0,
+        g.augmented_index.0,
+        g.augmented_layout_index.map(|x| x.0 as i64).unwrap_or(-1),
+        g.start_index.0
+    )
+    .unwrap();
+}
+
+/// Dump of the table part.
+pub fn dump_table(table: &LRTable, out: &mut String) {
+    for (i, f) in table.first_sets.iter().enumerate() {
+        write!(out, "FIRST {i}").unwrap();
+        for s in f {
+            write!(out, " {}", s.0).unwrap();
+        }
+        writeln!(out).unwrap();
+    }
+    match &table.production_rn_lengths {
+        None => writeln!(out, "RN -").unwrap(),
+        Some(v) => {
+            write!(out, "RN").unwrap();
+            for l in v {
+                write!(out, " {l}").unwrap();
+            }
+            writeln!(out).unwrap();
+        }
+    }
+    writeln!(
+        out,
+        "LAYOUT {}",
+        table.layout_state.map(|x| x.0 as i64).unwrap_or(-1)
+    )
+    .unwrap();
+    writeln!(out, "NSTATES {}", table.states.len()).unwrap();
+    for state in &table.states {
+        writeln!(out, "STATE {} {}", state.idx.0, state.symbol.0).unwrap();
+        for item in &state.items {
+            write!(out, "ITEM {} {}", item.prod.0, item.position).unwrap();
+            for f in item.follow.borrow().iter() {
+                write!(out, " {}", f.0).unwrap();
+            }
+            writeln!(out).unwrap();
+        }
+        for (t, actions) in state.actions.iter().enumerate() {
+            if actions.is_empty() {
+                continue;
+            }
+            write!(out, "ACT {t}").unwrap();
+            for a in actions {
+                match a {
+                    Action::Shift(s) => write!(out, " S{}", s.0).unwrap(),
+                    Action::Reduce(p, l) => write!(out, " R{},{}", p.0, l).unwrap(),
+                    Action::Accept => write!(out, " A").unwrap(),
+                }
+            }
+            writeln!(out).unwrap();
+        }
+        for (n, g) in state.gotos.iter().enumerate() {
+            if let Some(g) = g {
+                writeln!(out, "GOTO {n} {}", g.0).unwrap();
+            }
+        }
+        write!(out, "SORTED").unwrap();
+        for (t, f) in &state.sorted_terminals {
+            write!(out, " {}:{}", t.0, *f as u8).unwrap();
+        }
+        writeln!(out).unwrap();
+        write!(out, "MAXPRIO").unwrap();
+        for (t, p) in &state.max_prior_for_term {
+            write!(out, " {}:{}", t.0, p).unwrap();
+        }
+        writeln!(out).unwrap();
+    }
+    let conflicts = catch_unwind(AssertUnwindSafe(|| table.get_conflicts().len()));
+    match conflicts {
+        Ok(n) => writeln!(out, "CONFLICTS {n}").unwrap(),
+        Err(e) => writeln!(out, "CONFLICTS PANIC {}", hex(&panic_message(e))).unwrap(),
+    }
+}
+
+/// Runs the real grammar parser, grammar builder and table construction on the
+/// given grammar text and returns a line oriented dump. The first line is one
+/// of `OK`, `ERROR <stage> <hex message>`, `PANIC <stage> <hex message>`.
+pub fn dump(grammar_text: &str, settings: &Settings) -> String {
+    let mut out = String::new();
+    let grammar = catch_unwind(AssertUnwindSafe(|| -> Result<Grammar, String> {
+        let file = RustemoParser::new()
+            .parse(grammar_text)
+            .map_err(|e| format!("{e}"))?;
+        GrammarBuilder::new()
+            .try_from_file(file, None)
+            .map_err(|e| format!("{e}"))
+    }));
+    let grammar = match grammar {
+        Ok(Ok(g)) => g,
+        Ok(Err(e)) => return format!("ERROR grammar {}\n", hex(&e)),
+        Err(e) => return format!("PANIC grammar {}\n", hex(&panic_message(e))),
+    };
+    let mut gout = String::new();
+    dump_grammar(&grammar, &mut gout);
+    let missing = grammar
+        .terminals
+        .iter()
+        .any(|t| t.idx != TermIndex(0) && t.recognizer.is_none());
+    let table = catch_unwind(AssertUnwindSafe(|| LRTable::new(&grammar, settings)));
+    match table {
+        Ok(Ok(table)) => {
+            out.push_str("OK\n");
+            out.push_str(&gout);
+            writeln!(out, "MISSINGREC {}", missing as u8).unwrap();
+            dump_table(&table, &mut out);
+            out.push_str("END\n");
+        }
+        Ok(Err(e)) => {
+            writeln!(out, "ERROR table {}", hex(&format!("{e}"))).unwrap();
+            out.push_str(&gout);
+        }
+        Err(e) => {
+            writeln!(out, "PANIC table {}", hex(&panic_message(e))).unwrap();
+            out.push_str(&gout);
+        }
+    }
+    out
+}
